@@ -1435,6 +1435,26 @@ impl<'a> Model<'a> {
             None => return CalcResult::EmptyCell,
         };
 
+        if !matches!(
+            original_cell,
+            Cell::CellFormula { .. } | Cell::ArrayFormula { .. }
+        ) {
+            // A cell inside the range of a fixed-range array formula that is being evaluated
+            // right now: reading it is a circular reference, like reading the anchor itself.
+            let key = (
+                cell_reference.sheet,
+                cell_reference.row,
+                cell_reference.column,
+            );
+            if let Some(CellState::Evaluating) = self.cells.get(&key) {
+                return CalcResult::new_error(
+                    Error::CIRC,
+                    cell_reference,
+                    "Circular reference detected".to_string(),
+                );
+            }
+        }
+
         if let Cell::SpillCell { a, .. } = original_cell {
             // If it is part of an array or dynamic formula we need to evaluate the anchor cell
             // strictly speaking we don't need to evaluate the anchor cell of a dynamic array formula
@@ -1521,6 +1541,29 @@ impl<'a> Model<'a> {
                 }
                 // mark cell as being evaluated
                 self.cells.insert(key, CellState::Evaluating);
+                // A fixed-range (CSE) array formula writes every cell of its declared range: while
+                // it is evaluated all of them are "being evaluated", so that a formula whose own
+                // range contains cells it reads is circular (and does not feed on the values the
+                // previous evaluation left there).
+                let mut marked_range_cells = Vec::new();
+                if let Cell::ArrayFormula {
+                    r,
+                    kind: ArrayKind::Cse,
+                    ..
+                } = &original_cell
+                {
+                    for row in cell_reference.row..cell_reference.row + r.1 {
+                        for column in cell_reference.column..cell_reference.column + r.0 {
+                            let range_key = (cell_reference.sheet, row, column);
+                            if let std::collections::hash_map::Entry::Vacant(e) =
+                                self.cells.entry(range_key)
+                            {
+                                e.insert(CellState::Evaluating);
+                                marked_range_cells.push(range_key);
+                            }
+                        }
+                    }
+                }
                 let (node, _static_result) =
                     &self.parsed_formulas[cell_reference.sheet as usize][f as usize];
                 let result = self.evaluate_node_in_context(&node.clone(), cell_reference);
@@ -1558,6 +1601,10 @@ impl<'a> Model<'a> {
                 } else {
                     result
                 };
+
+                for range_key in marked_range_cells {
+                    self.cells.remove(&range_key);
+                }
 
                 if let Err(e) = self.set_cells_with_result(cell_reference, &original_cell, &result)
                 {
